@@ -796,6 +796,72 @@ async def run_join_leave(loop, kind, seq):
     return evlog, history, live_after, frames, got
 
 
+def no_subscriber_suite(ctx, corr, ids):
+    """LUBA / SCI receive path while NOBODY is subscribed: the forward frames that go by then are not delivered to
+    anyone, but they still are what "the immediately preceding frame" means for the next one — an EnableDeviceType
+    seen before the first subscriber joined counts for the frame right after it, and a device type is forgotten
+    when any other frame went by, observed or not."""
+    from dali import command
+    from dali.frame import ForwardFrame
+    rng = ctx.rng
+
+    async def scenario(loop, kind, steps):
+        ss = await sim.SerialSim(kind).start()
+        d = ss.d
+        queues = []
+        for st in steps:
+            if st == "join":
+                queues.append(d.new_dali_rx_queue())
+            elif st == "leave":
+                ss.p.queue_rx_dali.del_handler(queues.pop())
+            else:
+                data = list(st[1].to_bytes(st[0] // 8, "big"))
+                ss.feed(sim.luba_rx(data) if kind == "luba" else sim.sci_rx(data))
+            await sim.settle(1)
+        out = []
+        for q in queues:
+            got = []
+            while not q.empty():
+                c = q.get_nowait()
+                got.append((len(c.frame), c.frame.as_integer, canon_cmd(c)))
+            out.append(got)
+        return out
+
+    def edt(dt):
+        return (16, 0xC100 | dt)
+    n = 0
+    for kind in ("luba", "sci"):
+        for _ in range(40 if ctx.thorough else 12):
+            dt = rng.choice([1, 4, 5, 6, 8])
+            ext = (16, (rng.choice([0x01, 0x0B, 0xFF, 0x85]) << 8) | rng.randrange(224, 256))
+            other = rng.choice([(16, 0x0280), (24, 0x01FE30), (16, 0xA300), (16, 0x03A0)])
+            cases = [
+                ("EnableDeviceType seen before the first subscriber joined", [edt(dt), "join", ext], [(ext, dt)]),
+                ("subscriber left after EnableDeviceType, another frame went by unobserved",
+                 ["join", edt(dt), "leave", other, "join", ext], [(ext, 0)]),
+                ("EnableDeviceType and the frame it enabled both unobserved", [edt(dt), ext, "join", ext], [(ext, 0)]),
+                ("nobody subscribed at all, then a plain history", [other, "join", edt(dt), ext, ext],
+                 [(edt(dt), 0), (ext, dt), (ext, 0)]),
+            ]
+            for title, steps, expect in cases:
+                got = sim.run(scenario, kind, steps)
+                want = []
+                for (b, v), use_dt in expect:
+                    c = command.from_frame(ForwardFrame(b, v), devicetype=use_dt)
+                    want.append((b, v, canon_cmd(c)))
+                real = got[-1] if got else []
+                if real != want:
+                    corr.violate("serial:%s:unobserved-predecessor" % kind,
+                                 {"gateway": kind, "case": title,
+                                  "history": [s if isinstance(s, str) else "%0*x" % (s[0] // 4, s[1]) for s in steps]},
+                                 [str(x) for x in want], [str(x) for x in real],
+                                 "a frame is decoded under the device type of the immediately preceding frame, whether "
+                                 "or not anybody was subscribed when that frame went by")
+                n += 1
+    corr.count("traces", n)
+    corr.count("serial_no_subscriber", n)
+
+
 def registry_suite(ctx, corr, ids):
     """serial.DistributorQueue through the real LUBA / SCI protocol objects: EVERY join / leave / re-join /
     drop sequence of the given length over 4 subscriber slots (hence every shorter one), a frame observed
@@ -920,6 +986,7 @@ def correspond(ctx, corr):
         check_history_raw(ctx, corr, ids, script, spec_timeout_s)
     serial_suite(ctx, corr, ids, al)
     registry_suite(ctx, corr, ids)
+    no_subscriber_suite(ctx, corr, ids)
 
 
 def check_history_raw(ctx, corr, ids, script, timeout_s):
